@@ -12,7 +12,8 @@ use crate::audit::id_hex;
 use crate::common::{self, classify, etext, short_loc};
 use crate::harness::Report;
 use crate::model::{FsModel, ReadPlan};
-use crate::readback::{ReadBack, ReadBackOpts, read_back};
+use crate::readback::{ReadBack, ReadBackOpts, read_back, read_complete};
+use crate::store::Files;
 use crate::rng::Rng;
 use crate::sched::{ClockSteps, CpuPlan, Mode, Outcome, Policy, Sched, Stop, run_cmd};
 use crate::store::SimStore;
@@ -229,6 +230,100 @@ impl Sim {
         match r {
             Cmd::Ok(f) => f,
             other => vec![(format!("verify-{}", other.class()), other.detail())],
+        }
+    }
+
+    /// A Sim on a copy of the given file state: same key, config, known snapshots and rng state,
+    /// but its own store, scheduler and op log.
+    pub fn fork(&self, files: Files, name: &str) -> Self {
+        let sched = Sched::new();
+        let store = SimStore::from_files(name, sched.clone(), files);
+        Self {
+            sched,
+            store,
+            key: self.key.clone(),
+            cfg: self.cfg.clone(),
+            cpus: self.cpus.clone(),
+            rng: self.rng.clone(),
+            seed: self.seed,
+            snaps: self.snaps.clone(),
+            trace: vec![],
+            gates: 0,
+            sim_ns: 0,
+            policies: BTreeMap::new(),
+        }
+    }
+
+    /// Crash/fault oracle on an arbitrary file state: a fresh handle must open and load the
+    /// index; every listed snapshot must read completely; snapshots with a known model must
+    /// equal it; known snapshots may be missing only if listed in `may_vanish`.
+    pub fn state_oracle(&mut self, files: Files, expected: &BTreeMap<String, FsModel>, may_vanish: &[String], ignore: &[String]) -> Vec<(String, String)> {
+        let key = self.key.clone();
+        let sched = Sched::new();
+        let store = SimStore::from_files("oracle", sched, files);
+        let expected = expected.clone();
+        let may_vanish = may_vanish.to_vec();
+        let ignore = ignore.to_vec();
+        let mut rng = self.rng.fork("oracle");
+        let r = self.run(&Mode::Free, move || {
+            let mut findings: Vec<(String, String)> = vec![];
+            let repo = match repo_open(&store, 92, &key).and_then(|r| r.to_indexed()) {
+                Ok(r) => r,
+                Err(e) => {
+                    findings.push(("cannot-open-or-load-index".to_string(), etext(&e)));
+                    return Ok(findings);
+                }
+            };
+            let snaps = match repo.get_all_snapshots() {
+                Ok(v) => v,
+                Err(e) => {
+                    findings.push((format!("listing-snapshots-failed:{}", classify(&etext(&e))), etext(&e)));
+                    return Ok(findings);
+                }
+            };
+            let listed: Vec<String> = snaps.iter().map(|s| id_hex(&s.id)).collect();
+            for h in expected.keys() {
+                if !listed.contains(h) && !may_vanish.contains(h) {
+                    findings.push(("snapshot-vanished".into(), format!("snapshot {h} existed before and is no longer listed")));
+                }
+            }
+            for snap in &snaps {
+                let h = id_hex(&snap.id);
+                if ignore.contains(&h) {
+                    continue;
+                }
+                if let Some(model) = expected.get(&h) {
+                    match read_back(&repo, snap, model, &ReadBackOpts { ranged: 1, ..ReadBackOpts::default() }, &mut rng) {
+                        ReadBack::Equal => {}
+                        rb @ ReadBack::Err(..) => findings.push(("old-snapshot-unreadable".to_string(), format!("snapshot {h}: {}", rb.short()))),
+                        rb => findings.push(("old-snapshot-differs-from-model".to_string(), format!("snapshot {h}: {}", rb.short()))),
+                    }
+                } else if let Err((w, e)) = read_complete(&repo, snap) {
+                    findings.push(("new-snapshot-unreadable".to_string(), format!("snapshot {h}: {w}: {e}")));
+                }
+            }
+            Ok(findings)
+        });
+        match r {
+            Cmd::Ok(f) => f,
+            other => vec![(format!("oracle-{}", other.class()), other.detail())],
+        }
+    }
+
+    /// ids of listed snapshots that cannot be read completely in the given state
+    pub fn unreadable_snapshots(&mut self, files: Files) -> Vec<String> {
+        let key = self.key.clone();
+        let store = SimStore::from_files("probe", Sched::new(), files);
+        let r = self.run(&Mode::Free, move || {
+            let repo = repo_open(&store, 93, &key)?;
+            let ids: Vec<String> = repo.get_all_snapshots()?.iter().map(|s| id_hex(&s.id)).collect();
+            let Ok(repo) = repo.to_indexed() else { return Ok(ids) };
+            let snaps = repo.get_all_snapshots()?;
+            Ok(snaps.iter().filter(|s| read_complete(&repo, s).is_err()).map(|s| id_hex(&s.id)).collect::<Vec<_>>())
+        });
+        match r {
+            Cmd::Ok(v) => v,
+            _ => vec![],
         }
     }
 
